@@ -2073,6 +2073,11 @@ void XMLReader::handleEOL(XMLCh& curCh, bool inDecl)
             fCurLine++;
             curCh = chLF;
         }
+        else
+        {
+            // not a line end here (XML 1.0, or an internal entity): an ordinary character
+            fCurCol++;
+        }
         break;
     default:
         fCurCol++;
